@@ -1394,7 +1394,9 @@ impl Machine {
                         continue;
                     }
                     let max_idx = len.saturating_sub(1);
-                    let index_int = if !index_val.is_finite() {
+                    // out-of-range indices are clamped; +inf is beyond the end like any large
+                    // index (the cast saturates), NaN reads the first element
+                    let index_int = if index_val.is_nan() {
                         0
                     } else {
                         let raw_idx = index_val as i64;
@@ -1420,7 +1422,9 @@ impl Machine {
                         continue;
                     }
                     let max_idx = len.saturating_sub(1);
-                    let index_int = if !index_val.is_finite() {
+                    // out-of-range indices are clamped; +inf is beyond the end like any large
+                    // index (the cast saturates), NaN reads the first element
+                    let index_int = if index_val.is_nan() {
                         0
                     } else {
                         let raw_idx = index_val as i64;
